@@ -185,6 +185,14 @@ class FilReader(Filterbank):
             nsamps = self.header.nsamples - start
         if description is None:
             description = f"{get_callerfunc(inspect.stack())} : "
+        if start < 0 or start + nsamps > self.header.nsamples:
+            # a range that leaves the data cannot be honoured: refuse it before
+            # anything is yielded instead of failing on a later block
+            msg = (
+                f"Requested samples [{start}, {start + nsamps}) are not inside "
+                f"[0, {self.header.nsamples})"
+            )
+            raise ValueError(msg)
         gulp = min(nsamps, gulp)
         skipback = abs(skipback)
         if skipback >= gulp:
